@@ -8,6 +8,8 @@
 use std::io::Write;
 
 pub mod signer;
+pub mod scenario;
+pub mod reqgen;
 
 /// SplitMix64: every random choice of a run derives from one state seeded by VERIF_SEED.
 #[derive(Clone)]
